@@ -207,6 +207,7 @@ pub fn def_c06() -> PropDef {
         assumptions: &["with rating ties only length and membership of the limited list are compared (the order among fully tied hits is unspecified)"],
         spaces: vec![Space { name: "world", decode: decode_c06, plan: |t| Plan::Random(t.n(20_000, 500_000)) }],
         differential: false,
+        floors: &[("solo_searches", 5.0)],
     }
 }
 
@@ -328,6 +329,7 @@ pub fn def_c07() -> PropDef {
         assumptions: &["a pair member that is not a hit in its two-record store is C06's business and only counted here"],
         spaces: vec![Space { name: "world", decode: decode_c07, plan: |t| Plan::Random(t.n(80_000, 1_500_000)) }],
         differential: false,
+        floors: &[("pair_stores", 0.3)],
     }
 }
 
@@ -551,5 +553,6 @@ pub fn def_c12() -> PropDef {
         assumptions: &["title order is the code-point order of the full public normalised character array of the record"],
         spaces: vec![Space { name: "store", decode: decode_c12, plan: |t| Plan::Random(t.n(250_000, 4_000_000)) }],
         differential: false,
+        floors: &[],
     }
 }
